@@ -87,6 +87,12 @@ func (sc *SpecScope) lookupType(name string) types.Type {
 		}
 		return nil
 	}
+	if strings.HasPrefix(name, "*") {
+		if et := sc.lookupType(name[1:]); et != nil {
+			return types.NewPointer(et)
+		}
+		return nil
+	}
 	if i := strings.Index(name, "."); i >= 0 {
 		pn, tn := name[:i], name[i+1:]
 		for _, p := range c.eng.pkgs {
